@@ -1,7 +1,7 @@
 import Magog.Lemmas.GoArith
 import Magog.Props.C08
 
-/-! C08 - the FEN letter table: Go's `charToPiece`.
+/-! C08 - the FEN letter table, Go's `charToPiece`, and the castling-field validation `areCastlingFlagsConsistent`.
 
     Tie theorems: `Magog.Gen.Fn.*` is printed by the Go→Lean translator `harness/cmd/go2lean` from the current Go
     source on every run (T0); these theorems equate the translation with the hand-written model for **all**
@@ -28,5 +28,38 @@ theorem charToPiece_tie (c : Nat) : Gen.Fn.charToPiece (c : Int) = (Model.charTo
     rw [e1, e2]; rfl
 
 example : Gen.Fn.charToPiece 75 = 160 ∧ Gen.Fn.charToPiece 112 = 65 ∧ Gen.Fn.charToPiece 120 = 0 := by decide
+
+/-! `Position.areCastlingFlagsConsistent` (FEN validation): the flags byte and the six board squares it reads are
+    parameters of the translation. -/
+
+theorem band_nat (a b : Nat) : band (a : Int) (b : Int) = ((a &&& b : Nat) : Int) := by
+  unfold band; simp only [Int.toNat_natCast, Int.ofNat_eq_natCast]
+
+theorem ne_nat (a b : Nat) : (((a : Int) != (b : Int)) = (a != b)) := by
+  rw [Bool.eq_iff_iff]; simp only [bne_iff_ne, ne_eq]; omega
+
+theorem castlingConsistent_tie (p : Model.Position) :
+    Gen.Fn.areCastlingFlagsConsistent p.flags (p.board.getD Gen.E1 0 : Nat) (p.board.getD Gen.H1 0 : Nat) (p.board.getD Gen.A1 0 : Nat)
+      (p.board.getD Gen.E8 0 : Nat) (p.board.getD Gen.H8 0 : Nat) (p.board.getD Gen.A8 0 : Nat) = Model.castlingConsistent p := by
+  unfold Gen.Fn.areCastlingFlagsConsistent Model.castlingConsistent
+  simp only [Model.FWK, Model.FWQ, Model.FBK, Model.FBQ, Gen.FlagWhiteCanCastleKside, Gen.FlagWhiteCanCastleQside,
+    Gen.FlagBlackCanCastleKside, Gen.FlagBlackCanCastleQside, Gen.WKing, Gen.WRook, Gen.BKing, Gen.BRook]
+  have b2 : band (p.flags : Int) 2 = ((p.flags &&& 2 : Nat) : Int) := band_nat p.flags 2
+  have b4 : band (p.flags : Int) 4 = ((p.flags &&& 4 : Nat) : Int) := band_nat p.flags 4
+  have b8 : band (p.flags : Int) 8 = ((p.flags &&& 8 : Nat) : Int) := band_nat p.flags 8
+  have b16 : band (p.flags : Int) 16 = ((p.flags &&& 16 : Nat) : Int) := band_nat p.flags 16
+  have n0 : ∀ a : Nat, (((a : Int) != 0) = (a != 0)) := fun a => ne_nat a 0
+  have n160 : ∀ a : Nat, (((a : Int) != 160) = (a != 160)) := fun a => ne_nat a 160
+  have n136 : ∀ a : Nat, (((a : Int) != 136) = (a != 136)) := fun a => ne_nat a 136
+  have n96 : ∀ a : Nat, (((a : Int) != 96) = (a != 96)) := fun a => ne_nat a 96
+  have n72 : ∀ a : Nat, (((a : Int) != 72) = (a != 72)) := fun a => ne_nat a 72
+  simp only [b2, b4, b8, b16, n0, n160, n136, n96, n72]
+  rcases Bool.eq_false_or_eq_true (p.flags &&& 2 != 0 && (p.board.getD Gen.E1 0 != 160 || p.board.getD Gen.H1 0 != 136)) with h1 | h1 <;>
+  rcases Bool.eq_false_or_eq_true (p.flags &&& 4 != 0 && (p.board.getD Gen.E1 0 != 160 || p.board.getD Gen.A1 0 != 136)) with h2 | h2 <;>
+  rcases Bool.eq_false_or_eq_true (p.flags &&& 8 != 0 && (p.board.getD Gen.E8 0 != 96 || p.board.getD Gen.H8 0 != 72)) with h3 | h3 <;>
+  rcases Bool.eq_false_or_eq_true (p.flags &&& 16 != 0 && (p.board.getD Gen.E8 0 != 96 || p.board.getD Gen.A8 0 != 72)) with h4 | h4 <;>
+  simp only [h1, h2, h3, h4, Bool.false_eq_true, ↓reduceIte, Bool.not_true, Bool.not_false, Bool.and_self, Bool.and_false, Bool.false_and, Bool.and_true, Bool.true_and]
+
+example : Gen.Fn.areCastlingFlagsConsistent 3 160 136 0 0 0 0 = true ∧ Gen.Fn.areCastlingFlagsConsistent 3 160 72 0 0 0 0 = false := by decide
 
 end Magog.Props.C08Tie
